@@ -191,6 +191,38 @@ func checkC15(c *c15Case) (ds []hx.Discrepancy, info map[string]bool) {
 		}
 		add("print-not-stable", sig, "printing (no descriptions) is not stable: %s", firstDiff(q1, q2))
 	}
+	// print, extend, print again: what is printed after a further (valid) load is the schema as it is
+	// then - nothing printed earlier may show through
+	if c.Model == nil {
+		var ext strings.Builder
+		for _, t := range root.Types() {
+			switch tt := t.(type) {
+			case *ggql.Input:
+				if !tt.Core() {
+					fmt.Fprintf(&ext, "extend input %s { zqLater: Int = 5 }\n", tt.Name())
+				}
+			case *ggql.Enum:
+				if !tt.Core() {
+					fmt.Fprintf(&ext, "extend enum %s { ZQ_LATER }\n", tt.Name())
+				}
+			}
+		}
+		if ext.Len() > 0 && root.ParseString(ext.String()) == nil {
+			info["printed-again-after-a-later-load"] = true
+			dx := Describe(root, o)
+			px := root.SDL(false, true)
+			if fx, errx, panx := loadFresh(px); panx != nil || errx != nil {
+				add("printed-sdl-rejected", "", "the SDL printed after a later load (%s) is not accepted: %v %v\n%s", strings.TrimSpace(ext.String()), errx, panx, px)
+			} else {
+				if d := Describe(fx, o); d != dx {
+					add("printed-sdl-differs", "", "the SDL printed after a later load defines a different schema: %s\n--- later load\n%s\n--- printed\n%s", firstDiff(dx, d), ext.String(), px)
+				}
+				if px2 := fx.SDL(false, true); px2 != px {
+					add("print-not-stable", "", "after a later load, printing the re-parsed schema gives different text: %s\n--- later load\n%s\n--- print of the root\n%s\n--- print of the re-parsed schema\n%s", firstDiff(px, px2), ext.String(), px, px2)
+				}
+			}
+		}
+	}
 	if strings.Contains(d0, "\\\"") || strings.Contains(d0, "\\\\") || strings.Contains(d0, "\\n") {
 		info["text-needing-escape"] = true
 	}
